@@ -172,10 +172,18 @@ func encodeRequest(sc *Scenario) (*encodedRequest, error) {
 				add("Connect-Accept-Encoding", strings.Join(c.Accept, ", "))
 			}
 		case FormGRPC:
-			add("Content-Type", "application/grpc+"+c.Codec)
+			if c.BareContentType && c.Codec == CodecProto {
+				add("Content-Type", "application/grpc") // no sub-format means proto
+			} else {
+				add("Content-Type", "application/grpc+"+c.Codec)
+			}
 			add("Te", "trailers")
 		case FormGRPCWeb:
-			add("Content-Type", "application/grpc-web+"+c.Codec)
+			if c.BareContentType && c.Codec == CodecProto {
+				add("Content-Type", "application/grpc-web")
+			} else {
+				add("Content-Type", "application/grpc-web+"+c.Codec)
+			}
 		}
 		if c.Form != FormConnectStream {
 			if c.Compression != "" {
